@@ -57,6 +57,16 @@ Theorem C16_nearest_translate_exact :
    0 <= dx + lane - tx < w -> 0 <= dy - ty < h ->
    nearest_ix b 0 w h (F32.of_Z tx) (F32.of_Z ty) dx lane dy = (dy - ty) * w + (dx + lane - tx))%Z.
 Proof. exact nearest_translate_exact. Qed.
+(* "pad clamps": the same for EVERY destination pixel -- outside the source rectangle the pixel read is the nearest edge pixel *)
+Theorem C16_nearest_translate_pad :
+  forall b w h tx ty dx lane dy,
+  (1 <= w <= 16384 -> 1 <= h <= 16384 -> Z.abs tx < 2097152 -> Z.abs ty < 2097152 ->
+   0 <= dx < 2097152 -> 0 <= lane <= 7 -> 0 <= dy < 2097152 ->
+   nearest_ix b 0 w h (F32.of_Z tx) (F32.of_Z ty) dx lane dy =
+     Z.max 0 (Z.min (dy - ty) (h - 1)) * w + Z.max 0 (Z.min (dx + lane - tx) (w - 1)))%Z.
+Proof. exact nearest_translate_pad. Qed.
+Example C16_nearest_pad_example : nearest_ix SSE2 0 5 3 (F32.of_Z 7) (F32.of_Z 1) 0 2 40 = 10%Z.
+Proof. vm_compute. reflexivity. Qed.
 (* non-vacuity: the hypotheses hold for w=5, h=3, tx=7, ty=1, dx=8, lane=2, dy=2, and the model evaluates to (2-1)*5 + 3 *)
 Example C16_nearest_example : nearest_ix SSE2 0 5 3 (F32.of_Z 7) (F32.of_Z 1) 8 2 2 = 8%Z.
 Proof. vm_compute. reflexivity. Qed.
